@@ -116,12 +116,14 @@ func goTargetSignals(target *ssa.Function, g *ssa.Go) bool {
 }
 
 func ruleC10EntryRecover(c *Ctx) {
-	c.Doc("c10.entry-recover", "the API entries New and (*Query).Exec defer, as their first action, a handler that calls recover() and on a recovered panic stores a non-nil error into the entry's error result: every panic on the calling goroutine (parser, build path, execution, post-processors) becomes an error")
+	c.Doc("c10.entry-recover", "the API entries New, Prepare and (*Query).Exec defer, as their first action, a handler that calls recover() and on a recovered panic stores a non-nil error into the entry's error result: every panic on the calling goroutine (parser, build path, execution, post-processors) becomes an error")
 	c.NotDecidedClause("C10: termination of arbitrary loops/recursion beyond the re-entrancy guard of CTE thunks (the hand-written scanners' progress is not decided); memory exhaustion; formatting a row with %v while its <- back-reference is in scope when a query compares whole documents reached through `<-` (value-level)")
 	for _, e := range []struct {
 		name string
 		fn   *ssa.Function
-	}{{"New", c.P.Func(modPath, "New")}, {"(*Query).Exec", c.P.Method(modPath, "Query", "Exec")}} {
+	}{{"New", c.P.Func(modPath, "New")}, {"(*Query).Exec", c.P.Method(modPath, "Query", "Exec")},
+		// the other exported entry that builds a query (joins, derived tables and CTE references run while it builds)
+		{"Prepare", c.P.Func(modPath, "Prepare")}} {
 		if e.fn == nil {
 			c.Unknown("c10.entry-recover", e.name, "-", "anchor lost")
 			continue
